@@ -11,6 +11,7 @@ package advanced
 // free mode: nothing is gated; run-now / cancel requests are aimed at the scheduled instant.
 
 import (
+	"runtime"
 	"context"
 	"fmt"
 	"math/rand"
@@ -77,6 +78,24 @@ type c02Ctl struct {
 
 var c02Ctls sync.Map // *job -> *c02Ctl
 
+// c02Threads by goroutine: a hook inside RunJob / CancelJob runs on its caller's goroutine, so the thread a
+// hook belongs to is known exactly (two callers can be inside runJob at once: "the one that moved last" is a guess).
+var c02ByGoroutine sync.Map // goroutine id -> thread name
+
+func c02GoID() uint64 {
+	var buf [64]byte
+	n := runtime.Stack(buf[:], false)
+	// "goroutine 123 [running]:"
+	var id uint64
+	for _, ch := range buf[len("goroutine "):n] {
+		if ch < '0' || ch > '9' {
+			break
+		}
+		id = id*10 + uint64(ch-'0')
+	}
+	return id
+}
+
 func c02Install() {
 	h := func(j *job, point string) {
 		var ctl *c02Ctl
@@ -111,6 +130,11 @@ func (c *c02Ctl) hook(point string) {
 		c.mu.Lock()
 		th = c.moverK
 		c.mu.Unlock()
+	}
+	if point[0] == 'R' || point[0] == 'K' {
+		if v, ok := c02ByGoroutine.Load(c02GoID()); ok {
+			th = v.(string)
+		}
 	}
 	if point == "GExit" {
 		atomic.StoreInt32(&c.gexit, 1)
@@ -349,6 +373,9 @@ func c02Gated(t testing.TB, tr *verifsupport.Trace, sc c02Scenario, settle time.
 		wg.Add(1)
 		go func() {
 			defer wg.Done()
+			gid := c02GoID()
+			c02ByGoroutine.Store(gid, who)
+			defer c02ByGoroutine.Delete(gid)
 			var err error
 			res := ""
 			func() {
